@@ -382,46 +382,33 @@ theorem skipTo_spec (cfg : LexCfg) (ds : List Byte) (c : Byte) (l r : List Byte)
         · exact Or.inl ⟨hr, c', hc', by simp [skipTo, hx', hs]⟩
         · exact Or.inr ⟨d, t', hr, hd, by simp [skipTo, hx', hs]⟩
 
-theorem skipToRec_spec (cfg : LexCfg) (ds : List Byte) (inStr : Bool) (c : Byte) (l r : List Byte) (hc : delimAt cfg ds c = false) :
+theorem skipToRec_spec (cfg : LexCfg) (ds : List Byte) (c : Byte) (l r : List Byte) (hc : delimAt cfg ds c = false) :
     ∃ m rest, r = m ++ rest ∧ (∀ b ∈ m, delimAt cfg ds b = false) ∧
-      ((rest = [] ∧ ∃ c', delimAt cfg ds c' = false ∧ skipToRec cfg ds inStr c l r = (c', m.reverse ++ l, [], true, false)) ∨
-       (∃ d t, rest = d :: t ∧ delimAt cfg ds d = true ∧ skipToRec cfg ds inStr c l r = (d, d :: (m.reverse ++ l), t, false, false)) ∨
-       (∃ t, rest = 59 :: t ∧ delimAt cfg ds 59 = false ∧ skipToRec cfg ds inStr c l r = (59, m.reverse ++ l, 59 :: t, false, true))) := by
-  induction r generalizing c l inStr with
+      ((rest = [] ∧ ∃ c', delimAt cfg ds c' = false ∧ skipToRec cfg ds c l r = (c', m.reverse ++ l, [], true, false)) ∨
+       (∃ d t, rest = d :: t ∧ delimAt cfg ds d = true ∧ skipToRec cfg ds c l r = (d, d :: (m.reverse ++ l), t, false, false)) ∨
+       (∃ t, rest = 59 :: t ∧ delimAt cfg ds 59 = false ∧ skipToRec cfg ds c l r = (59, m.reverse ++ l, 59 :: t, false, true))) := by
+  induction r generalizing c l with
   | nil => exact ⟨[], [], by simp, by simp, Or.inl ⟨rfl, c, hc, by simp [skipToRec]⟩⟩
   | cons x t ih =>
     by_cases hx : delimAt cfg ds x = true
     · exact ⟨[], x :: t, by simp, by simp, Or.inr (Or.inl ⟨x, t, rfl, hx, by simp [skipToRec, hx]⟩)⟩
     · have hx' : delimAt cfg ds x = false := by simpa using hx
-      by_cases h39 : (x == 39) = true
-      · obtain ⟨m, rest, h1, h2, h3⟩ := ih (!inStr) x (x :: l) hx'
+      by_cases h59 : (x == 59) = true
+      · have hx59 : x = 59 := by simpa using h59
+        subst hx59
+        refine ⟨[], 59 :: t, by simp, by simp, Or.inr (Or.inr ⟨t, rfl, hx', ?_⟩)⟩
+        simp [skipToRec, hx']
+      · have h59' : (x == 59) = false := by simpa using h59
+        obtain ⟨m, rest, h1, h2, h3⟩ := ih x (x :: l) hx'
         refine ⟨x :: m, rest, by simp [h1], ?_, ?_⟩
         · intro b hb
           rcases List.mem_cons.mp hb with rfl | hb
           · exact hx'
           · exact h2 b hb
         · rcases h3 with ⟨hr, c', hc', hs⟩ | ⟨d, t', hr, hd, hs⟩ | ⟨t', hr, hd, hs⟩
-          · exact Or.inl ⟨hr, c', hc', by simp [skipToRec, hx', h39, hs]⟩
-          · exact Or.inr (Or.inl ⟨d, t', hr, hd, by simp [skipToRec, hx', h39, hs]⟩)
-          · exact Or.inr (Or.inr ⟨t', hr, hd, by simp [skipToRec, hx', h39, hs]⟩)
-      · have h39' : (x == 39) = false := by simpa using h39
-        by_cases h59 : (x == 59 && !inStr) = true
-        · have hx59 : x = 59 := by simp at h59; exact h59.1
-          have hin : inStr = false := by simp at h59; exact h59.2
-          subst hx59 hin
-          refine ⟨[], 59 :: t, by simp, by simp, Or.inr (Or.inr ⟨t, rfl, hx', ?_⟩)⟩
-          simp [skipToRec, hx']
-        · have h59' : (x == 59 && !inStr) = false := by simpa using h59
-          obtain ⟨m, rest, h1, h2, h3⟩ := ih inStr x (x :: l) hx'
-          refine ⟨x :: m, rest, by simp [h1], ?_, ?_⟩
-          · intro b hb
-            rcases List.mem_cons.mp hb with rfl | hb
-            · exact hx'
-            · exact h2 b hb
-          · rcases h3 with ⟨hr, c', hc', hs⟩ | ⟨d, t', hr, hd, hs⟩ | ⟨t', hr, hd, hs⟩
-            · exact Or.inl ⟨hr, c', hc', by simp [skipToRec, hx', h39', h59', hs]⟩
-            · exact Or.inr (Or.inl ⟨d, t', hr, hd, by simp [skipToRec, hx', h39', h59', hs]⟩)
-            · exact Or.inr (Or.inr ⟨t', hr, hd, by simp [skipToRec, hx', h39', h59', hs]⟩)
+          · exact Or.inl ⟨hr, c', hc', by simp [skipToRec, hx', h59', hs]⟩
+          · exact Or.inr (Or.inl ⟨d, t', hr, hd, by simp [skipToRec, hx', h59', hs]⟩)
+          · exact Or.inr (Or.inr ⟨t', hr, hd, by simp [skipToRec, hx', h59', hs]⟩)
 
 /-- the recovery loop of either configuration: it consumes a delimiter-free stretch `m` and stops at the end of the input, at
     a delimiter (consumed, to be put back), or — repaired loop — in front of a `;` -/
@@ -432,7 +419,7 @@ theorem skipGarbage_spec (cfg : LexCfg) (ds : List Byte) (c : Byte) (l r : List 
        (∃ t, rest = 59 :: t ∧ delimAt cfg ds 59 = false ∧ skipGarbage cfg ds c l r = (59, m.reverse ++ l, 59 :: t, false, true))) := by
   unfold skipGarbage
   split
-  · exact skipToRec_spec cfg ds false c l r hc
+  · exact skipToRec_spec cfg ds c l r hc
   · obtain ⟨m, rest, h1, h2, h3⟩ := skipTo_spec cfg ds c l r hc
     refine ⟨m, rest, h1, h2, ?_⟩
     rcases h3 with ⟨hr, c', hc', hs⟩ | ⟨d, t, hr, hd, hs⟩
